@@ -253,9 +253,12 @@ CHECKS = {
         text="Partial (structure, for all numeric contents at once): read_elast_data returns the reference volume, count, cell mass, every "
              "row's volume, every component under its canonical Voigt key whatever prefix / case / 2- or 4-index spelling, and the lattice "
              "block (or none); write_energy followed by read_energy returns the same counts, P/V/E and every frequency at its place, also when "
-             "the same path held (and was read as) other data sets before (bounded history of 4-6 steps).",
+             "the same path held (and was read as) other data sets before (bounded history of 4-6 steps); the `cij fill` command re-emits the "
+             "two header lines and the lattice block unchanged, consumes exactly N+1 table lines, forwards its options and emits fill_cij of "
+             "the parsed table.",
         note="Outside: numeric precision of the written text and float() parsing themselves (C-level), q coordinates and weights are concrete "
-             "in the round trip (%-formatting realises them), the `cij fill` command's re-emission (pandas C parser / to_string), evec files.",
+             "in the round trip (%-formatting realises them); for `cij fill` the text produced by pandas' to_string / read by its C parser is replaced "
+             "by the contract 'whitespace table <-> frame' (the concrete replay goes through the real text).",
         design="3/C17 (as built: A.4)"),
 }
 
